@@ -169,6 +169,18 @@ func (c *Code) Global(index int) *Symbol {
 	return c.symbols.Root().Symbol(uint16(index))
 }
 
+// GlobalIndex returns the index of the global variable with the given name.
+// That is the variable declared at the top level: a variable of the same name
+// declared in a block at the top level has a slot among the globals too, but
+// it is not what the name means outside of that block.
+func (c *Code) GlobalIndex(name string) (int, bool) {
+	sym, ok := c.symbols.Root().Get(name)
+	if !ok {
+		return 0, false
+	}
+	return int(sym.Index()), true
+}
+
 func (c *Code) GlobalNames() []string {
 	root := c.symbols.Root()
 	count := root.Count()
